@@ -55,17 +55,19 @@ def PState.expect (p : PState) (ty : TokType) : Res PState :=
 def minInt64 : Int := -9223372036854775808
 def maxInt64 : Int := 9223372036854775807
 
+/-- Sign and digits of an integer literal, unbounded. -/
+def signedDigits (s : Bytes) : Option Int :=
+  match s with
+  | 0x2D :: r => (digitsToNat? r).map (fun n => - (n : Int))
+  | 0x2B :: r => (digitsToNat? r).map (fun n => (n : Int))
+  | _ => (digitsToNat? s).map (fun n => (n : Int))
+
+/-- The int64 range check (`strconv.ErrRange`). -/
+def clampInt64 (v : Int) : Option Int :=
+  if minInt64 ≤ v ∧ v ≤ maxInt64 then some v else none
+
 /-- `strconv.Atoi` on a 64-bit platform. -/
-def atoi (s : Bytes) : Option Int :=
-  let (neg, ds) : Bool × Bytes := match s with
-    | 0x2D :: r => (true, r)
-    | 0x2B :: r => (false, r)
-    | _ => (false, s)
-  match digitsToNat? ds with
-  | none => none
-  | some n =>
-    let v : Int := if neg then - (n : Int) else (n : Int)
-    if minInt64 ≤ v ∧ v ≤ maxInt64 then some v else none
+def atoi (s : Bytes) : Option Int := (signedDigits s).bind clampInt64
 
 def atoiErr {α} : Res α := .err (.other "strconv.Atoi")
 
